@@ -248,6 +248,7 @@ struct edn_value {
             /* bit 62: is_decoded - True if decoded pointer is set */
             /* bits 61-0: actual length (supports up to 2 PB strings) */
             char* decoded; /* Lazy-decoded string (NULL until needed) */
+            size_t decoded_length; /* Byte length of decoded (valid once decoded is set) */
         } string;
         struct {
             const char* namespace; /* NULL if no namespace, points into input (zero-copy) */
@@ -447,6 +448,7 @@ const char* edn_simd_find_quote(const char* ptr, const char* end, bool* out_has_
 
 /* String parsing functions */
 char* edn_decode_string(edn_arena_t* arena, const char* data, size_t length);
+char* edn_decode_string_n(edn_arena_t* arena, const char* data, size_t length, size_t* out_length);
 edn_value_t* edn_read_string(edn_parser_t* parser);
 
 /* Number parsing functions */
